@@ -110,8 +110,11 @@ func rulePoolNil(c *Ctx, rule string) {
 	for _, f := range srcFuncs(sp) {
 		for _, b := range f.Blocks {
 			for _, ins := range b.Instrs {
-				if s, ok := ins.(*ssa.Send); ok && loadOfField(s.Chan, morassPkg, "Morass", "pool") && isNilConst(s.X) {
-					nilParked = true
+				if s, ok := ins.(*ssa.Send); ok && isNilConst(s.X) {
+					// into m.pool, or into a channel of buffers that New builds before storing it in the field
+					if ch, isCh := s.Chan.Type().Underlying().(*types.Chan); loadOfField(s.Chan, morassPkg, "Morass", "pool") || (isCh && isNamed(ch.Elem(), morassPkg, "sorter")) {
+						nilParked = true
+					}
 				}
 			}
 		}
@@ -176,6 +179,10 @@ func rulePoolNil(c *Ctx, rule string) {
 						leak = r
 					}
 				}
+				if leak != nil && nilReplaced(st.Val) {
+					c.ok(rule, key, st.Pos(), "the buffer is chosen in a local first: it is compared with nil and replaced by make(sorter, 0, chunkSize) before it is stored in m.chunk")
+					continue
+				}
 				if leak != nil {
 					c.bad(rule, key, st.Pos(), fmt.Sprintf("the buffer received from the pool may be the nil placeholder New parks there, and a path to the successful return at %s uses it without the zero-capacity check that installs make(sorter, 0, chunkSize): append then chooses the capacity, so cap(m.chunk) != chunkSize and the spill / in-memory decisions that compare against cap(m.chunk) go wrong (a spilled cycle is taken for an in-memory one and its run is dropped)", c.pos(leak.Pos())))
 				} else {
@@ -187,6 +194,36 @@ func rulePoolNil(c *Ctx, rule string) {
 	if n == 0 {
 		c.und(rule, "morass/pool-receive", token.NoPos, "no receive from the pool into m.chunk found")
 	}
+}
+
+// nilReplaced: v joins make(sorter, 0, m.chunkSize), taken when the candidate was nil, with the candidate itself.
+func nilReplaced(v ssa.Value) bool {
+	phi, ok := v.(*ssa.Phi)
+	if !ok || len(phi.Edges) != 2 {
+		return false
+	}
+	for i, e := range phi.Edges {
+		mk, ok := e.(*ssa.MakeSlice)
+		if !ok || !loadOfField(mk.Cap, morassPkg, "Morass", "chunkSize") {
+			continue
+		}
+		cand := phi.Edges[1-i]
+		for d := phi.Block().Idom(); d != nil; d = d.Idom() {
+			ifi, ok := d.Instrs[len(d.Instrs)-1].(*ssa.If)
+			if !ok {
+				continue
+			}
+			bo, ok := ifi.Cond.(*ssa.BinOp)
+			if !ok || bo.Op != token.EQL || bo.X != cand || !isNilConst(bo.Y) {
+				continue
+			}
+			// nil leads to the make, anything else straight to the join
+			if d.Succs[0] == phi.Block().Preds[i] && (d.Succs[1] == phi.Block() || d == phi.Block().Preds[1-i]) {
+				return true
+			}
+		}
+	}
+	return false
 }
 
 // ---- poolmove (C11): a buffer handed to a channel is given up ----
@@ -325,59 +362,62 @@ func ruleRunRetire(c *Ctx, rule string) {
 	pull := c.fn("morass", "(*Morass).Pull")
 	c.Funcs[funcName(pull)] = true
 	n := 0
-	for _, b := range pull.Blocks {
-		for _, ins := range b.Instrs {
-			pop, ok := ins.(*ssa.Call)
-			if !ok || !calleeIs(&pop.Call, "container/heap", "Pop") {
-				continue
-			}
-			n++
-			key := fmt.Sprintf("morass.(*Morass).Pull/popped-run#%d", n)
-			pushed := func(i ssa.Instruction) bool {
-				cl, ok := i.(*ssa.Call)
-				return ok && calleeIs(&cl.Call, "container/heap", "Push")
-			}
-			closed := func(i ssa.Instruction) bool {
-				if pushed(i) {
-					return true
-				}
-				cl, ok := i.(*ssa.Call)
-				return ok && methodIs(&cl.Call, "os", "File", "Close")
-			}
-			removedIfAsked := func(i ssa.Instruction) bool {
-				if pushed(i) {
-					return true
-				}
-				ifi, ok := i.(*ssa.If)
-				if !ok || !loadOfField(ifi.Cond, morassPkg, "Morass", "AutoClear") {
-					return false
-				}
-				for _, j := range ifi.Block().Succs[0].Instrs {
-					if cl, ok := j.(*ssa.Call); ok && calleeIs(&cl.Call, "os", "Remove") {
-						return true
-					}
-				}
-				return false
-			}
-			var noClose, noRemove *ssa.Return
-			for _, r := range returnsOf(pull) {
-				if !reachesInstr(pop, r) {
+	for _, pf := range privateReach(pull) {
+		for _, b := range pf.Blocks {
+			for _, ins := range b.Instrs {
+				pop, ok := ins.(*ssa.Call)
+				if !ok || !calleeIs(&pop.Call, "container/heap", "Pop") {
 					continue
 				}
-				if !mustPassBetween(pop, r, closed) {
-					noClose = r
+				c.Funcs[funcName(pf)] = true
+				n++
+				key := fmt.Sprintf("morass.(*Morass).Pull/popped-run#%d", n)
+				pushed := func(i ssa.Instruction) bool {
+					cl, ok := i.(*ssa.Call)
+					return ok && calleeIs(&cl.Call, "container/heap", "Push")
 				}
-				if !mustPassBetween(pop, r, removedIfAsked) {
-					noRemove = r
+				closed := func(i ssa.Instruction) bool {
+					if pushed(i) {
+						return true
+					}
+					cl, ok := i.(*ssa.Call)
+					return ok && methodIs(&cl.Call, "os", "File", "Close")
 				}
-			}
-			switch {
-			case noClose != nil:
-				c.bad(rule, key, pop.Pos(), "a run popped from m.files can reach the return at "+c.pos(noClose.Pos())+" without being pushed back or closed")
-			case noRemove != nil:
-				c.bad(rule, key, pop.Pos(), "a run popped from m.files can reach the return at "+c.pos(noRemove.Pos())+" without being pushed back and without the AutoClear test that removes its file: the run is no longer in m.files, so the final Clear cannot remove it either and the file stays in the temporary directory")
-			default:
-				c.ok(rule, key, pop.Pos(), "on every path a popped run is pushed back, or closed and (under AutoClear) removed")
+				removedIfAsked := func(i ssa.Instruction) bool {
+					if pushed(i) {
+						return true
+					}
+					ifi, ok := i.(*ssa.If)
+					if !ok || !loadOfField(ifi.Cond, morassPkg, "Morass", "AutoClear") {
+						return false
+					}
+					for _, j := range ifi.Block().Succs[0].Instrs {
+						if cl, ok := j.(*ssa.Call); ok && calleeIs(&cl.Call, "os", "Remove") {
+							return true
+						}
+					}
+					return false
+				}
+				var noClose, noRemove *ssa.Return
+				for _, r := range returnsOf(pf) {
+					if !reachesInstr(pop, r) {
+						continue
+					}
+					if !mustPassBetween(pop, r, closed) {
+						noClose = r
+					}
+					if !mustPassBetween(pop, r, removedIfAsked) {
+						noRemove = r
+					}
+				}
+				switch {
+				case noClose != nil:
+					c.bad(rule, key, pop.Pos(), "a run popped from m.files can reach the return at "+c.pos(noClose.Pos())+" without being pushed back or closed")
+				case noRemove != nil:
+					c.bad(rule, key, pop.Pos(), "a run popped from m.files can reach the return at "+c.pos(noRemove.Pos())+" without being pushed back and without the AutoClear test that removes its file: the run is no longer in m.files, so the final Clear cannot remove it either and the file stays in the temporary directory")
+				default:
+					c.ok(rule, key, pop.Pos(), "on every path a popped run is pushed back, or closed and (under AutoClear) removed")
+				}
 			}
 		}
 	}
@@ -777,51 +817,56 @@ func ruleMailbox(c *Ctx, rule string, names ...string) {
 	pkg := modPath + "/concurrent"
 	ms := c.fn("concurrent", "(*Promise).messageState")
 	for _, name := range names {
-		fn := c.fn("concurrent", name)
-		c.Funcs[funcName(fn)] = true
+		root := c.fn("concurrent", name)
+		c.Funcs[funcName(root)] = true
 		n := 0
-		for _, b := range fn.Blocks {
-			for _, ins := range b.Instrs {
-				call, ok := ins.(*ssa.Call)
-				if !ok || call.Call.StaticCallee() != ms {
-					continue
-				}
-				n++
-				key := fmt.Sprintf("%s/messageState#%d", funcName(fn), n)
-				puts := func(i ssa.Instruction) bool {
-					switch x := i.(type) {
-					case *ssa.Send:
-						return loadOfField(x.Chan, pkg, "Promise", "message")
-					case *ssa.Defer:
-						if mc, ok := x.Call.Value.(*ssa.MakeClosure); ok {
-							if cf, ok := mc.Fn.(*ssa.Function); ok {
-								for _, cb := range cf.Blocks {
-									for _, ci := range cb.Instrs {
-										if s, ok := ci.(*ssa.Send); ok && loadOfField(s.Chan, pkg, "Promise", "message") {
-											return true
+		for _, fn := range privateReach(root) {
+			if fn == ms {
+				continue
+			}
+			for _, b := range fn.Blocks {
+				for _, ins := range b.Instrs {
+					call, ok := ins.(*ssa.Call)
+					if !ok || call.Call.StaticCallee() != ms {
+						continue
+					}
+					n++
+					key := fmt.Sprintf("%s/messageState#%d", funcName(root), n)
+					puts := func(i ssa.Instruction) bool {
+						switch x := i.(type) {
+						case *ssa.Send:
+							return loadOfField(x.Chan, pkg, "Promise", "message")
+						case *ssa.Defer:
+							if mc, ok := x.Call.Value.(*ssa.MakeClosure); ok {
+								if cf, ok := mc.Fn.(*ssa.Function); ok {
+									for _, cb := range cf.Blocks {
+										for _, ci := range cb.Instrs {
+											if s, ok := ci.(*ssa.Send); ok && loadOfField(s.Chan, pkg, "Promise", "message") {
+												return true
+											}
 										}
 									}
 								}
 							}
 						}
+						return false
 					}
-					return false
-				}
-				var leak *ssa.Return
-				for _, r := range returnsOf(fn) {
-					if reachesInstr(call, r) && !mustPassBetween(call, r, puts) {
-						leak = r
+					var leak *ssa.Return
+					for _, r := range returnsOf(fn) {
+						if reachesInstr(call, r) && !mustPassBetween(call, r, puts) {
+							leak = r
+						}
 					}
-				}
-				if leak != nil {
-					c.bad(rule, key, call.Pos(), "the message taken out of the promise's one-slot mailbox is not put back on the path to the return at "+c.pos(leak.Pos())+": after such a call the promise is empty again, so a rejected Fulfill un-sets the promise and every later Wait blocks (or a second Fulfill succeeds)")
-				} else {
-					c.ok(rule, key, call.Pos(), "every path from taking the message to a return puts a message back")
+					if leak != nil {
+						c.bad(rule, key, call.Pos(), "the message taken out of the promise's one-slot mailbox is not put back on the path to the return at "+c.pos(leak.Pos())+": after such a call the promise is empty again, so a rejected Fulfill un-sets the promise and every later Wait blocks (or a second Fulfill succeeds)")
+					} else {
+						c.ok(rule, key, call.Pos(), "every path from taking the message to a return puts a message back")
+					}
 				}
 			}
 		}
 		if n == 0 {
-			c.und(rule, funcName(fn)+"/messageState", fn.Pos(), "no messageState call")
+			c.und(rule, funcName(root)+"/messageState", root.Pos(), "no messageState call")
 		}
 	}
 }
@@ -904,7 +949,7 @@ func ruleExonOverlap(c *Ctx, rule string) {
 			continue
 		}
 		for edge, succ := range b.Succs {
-			if !rejects(succ) {
+			if !rejectsFrom(b, succ) {
 				continue
 			}
 			f, ok := strictForm(bo, edge, &linEnv{noInline: true})
